@@ -67,7 +67,7 @@ def safe_cell_text(rng, convert=True, long_p=0.0):
 
 
 def gen_column(rng, n, dtype=None, convert=True, nullable=None, long_p=0.0):
-    dtype = dtype or rng.choice(["str", "str", "int", "float"])
+    dtype = dtype or rng.choice(["str", "str", "str", "int", "float", "int", "float", "bool", "date", "int32", "float32"])
     nullable = rng.random() < 0.3 if nullable is None else nullable
     vals = []
     for _ in range(n):
@@ -75,8 +75,14 @@ def gen_column(rng, n, dtype=None, convert=True, nullable=None, long_p=0.0):
             vals.append(None)
         elif dtype == "str":
             vals.append(safe_cell_text(rng, convert, long_p))
-        elif dtype == "int":
+        elif dtype in ("int", "int32"):
             vals.append(rng.choice([0, 1, -1, rng.randint(-10**6, 10**6), rng.randint(0, 99)]))
+        elif dtype == "bool":
+            vals.append(rng.random() < 0.5)
+        elif dtype == "date":
+            vals.append("%04d-%02d-%02d" % (rng.randint(1990, 2030), rng.randint(1, 12), rng.randint(1, 28)))
+        elif dtype == "float32":
+            vals.append(rng.choice([0.0, 1.5, -2.25, 0.5, 1024.0, float(rng.randint(-5, 5))]))
         else:
             vals.append(rng.choice([0.0, 1.5, -2.25, round(rng.uniform(-1000, 1000), rng.randint(0, 6)),
                                     float(rng.randint(-5, 5)), 1e-7, 1.23e20]))
@@ -129,9 +135,13 @@ def gen_df(rng, n, ncols, *, convert=True, group_cols=0, subline_cols=0, groupby
     positions = list(range(total))
     rng.shuffle(positions)
     take = iter(positions)
-    pg = sorted(next(take) for _ in range(group_cols))
-    sb = sorted(next(take) for _ in range(subline_cols))
-    gb = sorted(next(take) for _ in range(groupby_cols))
+    # the hierarchy is the ORDER of the page_by / subline_by / group_by lists, which need not be the
+    # order in which the columns stand in the frame
+    pg = [next(take) for _ in range(group_cols)]
+    sb = [next(take) for _ in range(subline_cols)]
+    gb = [next(take) for _ in range(groupby_cols)]
+    if rng.random() < 0.5:
+        pg, sb, gb = sorted(pg), sorted(sb), sorted(gb)
     keypos = next(take) if key else None
     # subline_by is the outer grouping, page_by nested in it, group_by nested in both
     levels = subline_cols + group_cols + groupby_cols
@@ -205,11 +215,18 @@ def gen_page(rng, *, nrow=None, paper=None, placements=True, borders=True, col_w
         kw["orientation"] = rng.choice(["portrait", "landscape"])
     paper = rng.random() < 0.35 if paper is None else paper
     if paper:
+        def half_twip(lo, hi):
+            # an exact half twip (odd multiple of 1/2880 in): where round-half-even, round-half-up and
+            # truncation all disagree
+            return (rng.randint(int(lo * 2880), int(hi * 2880)) | 1) / 2880
+
         w, h = rng.choice([(8.27, 11.69), (11.69, 8.27), (8.5, 14), (7.25, 10.5),
-                           (round(rng.uniform(5, 14), 2), round(rng.uniform(5, 17), 2))])
+                           (round(rng.uniform(5, 14), 2), round(rng.uniform(5, 17), 2)),
+                           (half_twip(5, 14), half_twip(5, 17)), (8 + 17 / 64, 11 + 45 / 64)])
         kw["width"], kw["height"] = w, h
         if rng.random() < 0.6:
-            kw["margin"] = [round(rng.uniform(0.3, 1.6), rng.choice([1, 2, 3])) for _ in range(6)]
+            kw["margin"] = [round(rng.uniform(0.3, 1.6), rng.choice([1, 2, 3])) if rng.random() < 0.7
+                            else half_twip(0.3, 1.6) for _ in range(6)]
         kw["col_width"] = round(min(w - 1.0, rng.uniform(2.0, 12.0)), 2)
     if col_width is not None:
         kw["col_width"] = col_width
@@ -440,6 +457,8 @@ def gen_table_spec(rng, *, nrows=(0, 30), ncols=(1, 6), strategy=None, header=No
         body["as_colheader"] = False
     ndisp = displayed_count(nc, body)
     spec: dict = {"kind": "table", "df": df, "body": body, "_meta": meta}
+    if rng.random() < 0.5:
+        spec["_forms"] = rng.randint(1, 10**6)
     spec["colheader"] = gen_colheader(rng, ndisp, mode=header, base=hdr_base, rich=rich,
                                       half_points=half_points, color_pool=color_pool)
     pk = gen_page(rng, nrow=nrow) if page is None else dict(page)
@@ -595,6 +614,12 @@ def gen_figure_spec(rng, *, nfig=(1, 6), rich=0.3, color_pool=None, half_points=
     if rng.random() < 0.7:
         fkw["fig_align"] = rng.choice(["left", "center", "right"])
     spec: dict = {"kind": "figure", "figure": {"files": files, "kw": fkw}}
+    if rng.random() < 0.2:
+        # a figure shown twice (legend, plot, legend): one page per ENTRY of the list
+        spec["figure"]["order"] = list(range(k)) + [rng.randrange(k) for _ in range(rng.randint(1, 2))]
+        rng.shuffle(spec["figure"]["order"])
+    if rng.random() < 0.5:
+        spec["_forms"] = rng.randint(1, 10**6)
     if k == 1 and rng.random() < 0.3:
         spec["figure"]["single_path"] = True
     pk = gen_page(rng, borders=False)
